@@ -2,7 +2,7 @@
 // line: <tissue case> H mode seed search niter {scale_k}
 //   mode 0: cell level  (per iteration: scale every cell about its centroid by scale_k, then apply_internal_forces(dt))
 //   mode 1: real solver (per iteration: scale, then solver::run_iteration())
-// out : INIT {id gid V Vt P g Vdiv rawg rawdiv} | I k {id gid V Vt P g Vdiv ready below} {X id V minvol Vdiv in_divider} | ...
+// out : INIT {id gid V Vt P g Vdiv rawg rawdiv} | I k {id gid V Vt P g Vdiv ready below Vmesh} {X id V minvol Vdiv in_divider} | ...
 //       X = a cell emptied during the iteration (clear_data), with the volume it carried when it was emptied
 #include "tissue.hpp"
 #include "solver.hpp"
@@ -30,11 +30,21 @@ public:
 
 struct vsolver : public solver { using solver::solver; };
 
+// the volume enclosed by the current mesh, recomputed here from the live triangles
+static double mesh_volume(const cell_ptr& c){
+    double v = 0;
+    for (const face& f : c->get_face_lst()) if (f.is_used()){
+        auto [a,b,d] = f.get_node_ids();
+        v += c->get_node_lst()[a].pos().dot(c->get_node_lst()[b].pos().cross(c->get_node_lst()[d].pos()));
+    }
+    return std::fabs(v) / 6.;
+}
+
 static void dump(const std::vector<cell_ptr>& cells){
     for (const cell_ptr& c : cells){
         std::cout << " " << c->get_id() << " " << c->get_cell_type_id() << " " << hx(c->get_volume()) << " " << hx(c->get_target_volume())
                   << " " << hx(c->get_pressure()) << " " << hx(c->get_growth_rate()) << " " << hx(c->get_division_volume())
-                  << " " << (c->is_ready_to_divide() ? 1 : 0) << " " << (c->is_below_min_vol() ? 1 : 0) << " ;";
+                  << " " << (c->is_ready_to_divide() ? 1 : 0) << " " << (c->is_below_min_vol() ? 1 : 0) << " " << hx(mesh_volume(c)) << " ;";
     }
 }
 
